@@ -210,7 +210,7 @@ def run_pytest(d: Path, args=(), env=None, stdin=b"", timeout=180, keep_ci=False
     e = clean_env(env, keep_ci=keep_ci)
     if plugins:
         e["PYTHONPATH"] = f"/verif/harness/plugins:{e['PYTHONPATH']}"
-    if tty or stdin:
+    if tty:
         e["FORCE_COLOR"] = "true"
     else:
         e.pop("FORCE_COLOR", None)
